@@ -1,12 +1,15 @@
 #!/bin/bash
-# usage: try_patch.sh <patch.diff> <prop> [<prop>...]   applies patch to /repo, runs checks, reverts
-P="$1"; shift
-cd /repo || exit 2
-if ! git diff --quiet; then echo "/repo is dirty, refusing"; exit 2; fi
-git apply "$P" || { echo "patch does not apply"; exit 2; }
-cd /verif
+# usage: try_patch.sh <patch.diff> <prop> [<prop>...]   applies the patch to a scratch copy of /repo (never to /repo itself),
+# runs the named checks against the copy, removes the copy. Facts are cached under /verif/.cache-try (keyed by source hash).
+P="$(readlink -f "$1")"; shift
+S=$(mktemp -d /tmp/try_patch.XXXXXX)
+trap 'rm -rf "$S"' EXIT
+rsync -a --exclude target --exclude .git /repo/ "$S/repo/"
+( cd "$S/repo" && git apply "$P" ) || { echo "patch does not apply"; exit 2; }
+cd "$(dirname "$0")/.."
+export PDB_REPO="$S/repo" PDB_CACHE="$(pwd)/.cache-try"
+mkdir -p "$PDB_CACHE"
 for c in "$@"; do
   ./check "$c" > /tmp/try_$c.out 2>&1; rc=$?
   echo "== $c exit=$rc"; grep -E "^VIOLATED|^FATAL|detail|Traceback" /tmp/try_$c.out | head -${TRY_LINES:-12}
 done
-git -C /repo checkout -- . 
